@@ -411,7 +411,7 @@ func genC01(g *G) {
 		add("# "+strings.Repeat("c", n)+"\n1.2.3.4 a", "")
 	}
 	// token soup from the grammars of the other properties
-	toks := []string{"", "a", "1", "255", "256", "00", "-", "_", ".", "..", ":", "::", "%", "[", "]", "/", "#", " ", "\t", "\n", "\r\n", "é", "\xff", "\x00", "xn--", "1.2.3.4", "::1", "fe80::1%e",
+	toks := []string{"", "a", "1", "255", "256", "00", "-", "_", ".", "..", ":", "::", "%", "[", "]", "/", "#", " ", "\t", "\n", "\r\n", "é", "\xff", "\x00", "\x7f", "\x80", "@", "`", "G", "g", "xn--", "1.2.3.4", "::1", "fe80::1%e",
 		"host.example", strings.Repeat("a", 63), strings.Repeat("a", 64), strings.Repeat("a.", 127), "http://", "u:p@", "?", "1h", "m", "s", "0", "-1", "\"", "\\", "null", "{", "::ffff:1.2.3.4", "1.2.3.4/8", "K", "ſ", "İ",
 		"θ", "ϑ", "ϴ", "Θ", "в", "ᲀ", "ͅ", "ι", "Ι", "ι", "σ", "ς", "µ", "\U00010400", "тест", "ТЕСТ"}
 	for i := 0; i < g.N(2500, 150000); i++ {
